@@ -1,6 +1,6 @@
 SPECIFICATION Spec
 CONSTANTS
-  Objs = {"ri", "vd"}
+  Objs = {"ri"}
   Names = {"a", "ab"}
   Types = {"i16", "c8"}
   Counts = {1, 2, 65535}
